@@ -109,3 +109,111 @@ Proof.
 Qed.
 Print Assumptions learn_frame.
 Print Assumptions copy_cells_content.
+
+(* ---------- cloning a whole agent: every cell list is copied into fresh cells ---------- *)
+Fixpoint copy_lists (h : heap) (n : loc) (lss : list (list loc)) : heap * loc * list (list loc) :=
+  match lss with
+  | [] => (h, n, [])
+  | ls :: rest =>
+      let '(h1, out) := copy_cells h n ls in
+      let '(h2, n2, outs) := copy_lists h1 (n + length ls) rest in
+      (h2, n2, out :: outs)
+  end.
+
+Lemma copy_lists_locs : forall lss h n,
+  concat (snd (copy_lists h n lss)) = seq n (length (concat lss)) /\
+  snd (fst (copy_lists h n lss)) = n + length (concat lss).
+Proof.
+  induction lss as [|ls rest IH]; intros h n; cbn [copy_lists concat length].
+  - cbn. split; auto.
+  - pose proof (copy_cells_locs h n ls) as Hl.
+    destruct (copy_cells h n ls) as [h1 out] eqn:E1. cbn [snd] in Hl.
+    specialize (IH h1 (n + length ls)).
+    destruct (copy_lists h1 (n + length ls) rest) as [[h2 n2] outs]. cbn [fst snd concat] in *.
+    destruct IH as [I1 I2]. rewrite app_length, seq_app, Hl, I1. split; [reflexivity|lia].
+Qed.
+
+Lemma copy_lists_frame : forall lss h n x, x < n -> fst (fst (copy_lists h n lss)) x = h x.
+Proof.
+  induction lss as [|ls rest IH]; intros h n x Hx; cbn [copy_lists]; auto.
+  pose proof (copy_cells_frame h n ls x Hx) as Hf.
+  destruct (copy_cells h n ls) as [h1 out]. cbn [fst] in Hf.
+  specialize (IH h1 (n + length ls) x ltac:(lia)).
+  destruct (copy_lists h1 (n + length ls) rest) as [[h2 n2] outs]. cbn [fst] in *. congruence.
+Qed.
+
+(* clone with the REPAIRED semantics: networks and optimizer state are both copied *)
+Definition clone_agent (h : heap) (n : loc) (a : agent) : heap * loc * agent :=
+  let '(h1, n1, nets') := copy_lists h n (nets a) in
+  let '(h2, n2, st') := copy_lists h1 n1 (ostate a) in
+  (h2, n2, {| nets := nets'; ostate := st'; orefs := nets' |}).
+
+(* clone with the PINNED semantics: optimizer.load_state_dict aliases the state tensors *)
+Definition clone_agent_code (h : heap) (n : loc) (a : agent) : heap * loc * agent :=
+  let '(h1, n1, nets') := copy_lists h n (nets a) in
+  (h1, n1, {| nets := nets'; ostate := ostate a; orefs := nets' |}).
+
+Definition clone_into (w : world) (i : nat) (cl : heap -> loc -> agent -> heap * loc * agent) : world :=
+  match nth_error (pop w) i with
+  | None => w
+  | Some a => let '(h', n', a') := cl (hp w) (next w) a in
+              {| next := n'; fresh := fresh w; hp := h'; pop := pop w ++ [a'] |}
+  end.
+
+Lemma owned_clone h n a :
+  owned (snd (clone_agent h n a)) = seq n (length (owned a)).
+Proof.
+  unfold clone_agent, owned.
+  pose proof (copy_lists_locs (nets a) h n) as [L1 N1].
+  destruct (copy_lists h n (nets a)) as [[h1 n1] nets'] eqn:E1. cbn [fst snd] in L1, N1.
+  pose proof (copy_lists_locs (ostate a) h1 n1) as [L2 N2].
+  destruct (copy_lists h1 n1 (ostate a)) as [[h2 n2] st']. cbn [fst snd nets ostate] in *.
+  rewrite L1, L2, N1, app_length, seq_app. reflexivity.
+Qed.
+
+Lemma NoDup_app_intro (l l' : list loc) :
+  NoDup l -> NoDup l' -> (forall x, In x l -> ~ In x l') -> NoDup (l ++ l').
+Proof.
+  induction l as [|a l IH]; intros N1 N2 D; cbn [app]; auto.
+  inversion N1; subst. constructor.
+  - intro Hin. apply in_app_or in Hin as [Hin|Hin]; auto. apply (D a); [left|]; auto.
+  - apply IH; auto. intros x Hx. apply D. right; auto.
+Qed.
+
+(* the repaired clone keeps the population separated: every reachable population is separated *)
+Theorem clone_preserves_WF w i : WF w -> WF (clone_into w i clone_agent).
+Proof.
+  intros [ND LT]. unfold clone_into. destruct (nth_error (pop w) i) as [a|] eqn:Hi; [|split; auto].
+  pose proof (owned_clone (hp w) (next w) a) as Ho.
+  assert (Hn : snd (fst (clone_agent (hp w) (next w) a)) = next w + length (owned a)).
+  { unfold clone_agent, owned.
+    pose proof (copy_lists_locs (nets a) (hp w) (next w)) as [_ N1].
+    destruct (copy_lists (hp w) (next w) (nets a)) as [[h1 n1] nets']. cbn [fst snd] in N1.
+    pose proof (copy_lists_locs (ostate a) h1 n1) as [_ N2].
+    destruct (copy_lists h1 n1 (ostate a)) as [[h2 n2] st']. cbn [fst snd] in *.
+    rewrite app_length. lia. }
+  destruct (clone_agent (hp w) (next w) a) as [[h' n'] a']. cbn [fst snd] in *.
+  unfold WF, all_owned in *. cbn [pop next]. rewrite map_app, concat_app. cbn [map concat].
+  rewrite app_nil_r, Ho. split.
+  - apply NoDup_app_intro; auto.
+    + apply seq_NoDup.
+    + intros x Hx Hs. apply in_seq in Hs. rewrite Forall_forall in LT. specialize (LT x Hx). lia.
+  - apply Forall_app. split.
+    + eapply Forall_impl; [|exact LT]. cbn. intros; lia.
+    + apply Forall_forall. intros x Hx. apply in_seq in Hx. lia.
+Qed.
+
+(* the pinned clone does not: parent and clone share the optimizer state cells *)
+Definition w0 : world := {| next := 3; fresh := 10; hp := fun _ => 0;
+                            pop := [ {| nets := [[0; 1]]; ostate := [[2]]; orefs := [[0; 1]] |} ] |}.
+Theorem clone_code_breaks_separation :
+  exists w i, WF w /\ ~ NoDup (all_owned (clone_into w i clone_agent_code)).
+Proof.
+  exists w0, 0. split.
+  - split; cbn; repeat constructor; cbn; intuition lia.
+  - vm_compute. intro H.
+    repeat match goal with H : NoDup (_ :: _) |- _ => inversion H; clear H; subst end.
+    cbn in *. intuition.
+Qed.
+Print Assumptions clone_preserves_WF.
+Print Assumptions clone_code_breaks_separation.
